@@ -2,8 +2,9 @@
 (* Scenario generator for CmdServent: the same actions, each wrapped in a     *)
 (* named operator G_<Action> (TLC labels the steps of the behaviours it       *)
 (* writes), with the arrival of replies restricted to the instants a driver   *)
-(* can impose on the real code WITHOUT hooks and without depending on the     *)
-(* length of a sleep:                                                         *)
+(* can impose on the real code WITHOUT hooks (no verdict ever depends on the   *)
+(* length of a sleep; the clock-placed replies of the Stagger family only      *)
+(* steer where the reply lands, the monitor judges recorded clock readings):   *)
 (*  - while the call is inside SendFunc (the driver holds SendFunc),          *)
 (*  - right after SendFunc returned, before any logical time passed,          *)
 (*  - (Stagger) half a logical tick after an instant, by the driver's clock,   *)
